@@ -129,7 +129,7 @@ def selftest(traces):
         a2 = json.loads(json.dumps({"id": t["id"] + "#dropped-but-served", "init": t["init"], "events": a["events"][:-1]}))
         a2["events"] += [{"ev": "fetch", "name": first, "got": "served"}, {"ev": "end"}]   # ... and the server does serve it
         b = json.loads(json.dumps({"id": t["id"] + "#no-response", "init": t["init"], "events": t["events"][:i]}))
-        b["events"] += [{"ev": "response", "status": "notfound", "listing": [], "culprit": ""}, {"ev": "end"}]
+        b["events"] += [{"ev": "response", "status": "notfound", "listing": [], "culprit": "", "dirrefused": False}, {"ev": "end"}]
         c = json.loads(json.dumps({"id": t["id"] + "#dup-enum", "init": t["init"], "events": [t["events"][0]] + t["events"]}))
         bad += [a, a2, b, c]
     tv = dl.validate_parallel("TraceC12", "TraceC12.cfg", bad)
@@ -222,8 +222,10 @@ def main(chk, replay=None):
                                          for k in tr["case"]["d"]["kids"])]
     nontrivial = len({json.dumps([tr["init"], tr["events"]], sort_keys=True) for tr in faulty if tr["extra"]["fired"] or
                       any(k["kind"] not in ("file", "dir") or not _plain(k["name"], tr["case"]["d"]["sb"]) for k in tr["case"]["d"]["kids"])})
-    if not replay and nontrivial == 0:
-        raise core.MachineryError("C12: no non-trivial case was exercised")
+    answered = sum(1 for tr in faulty for e in tr["events"] if e["ev"] == "response" and e["status"] == "ok")
+    if not replay and (nontrivial == 0 or answered == 0):
+        raise core.MachineryError("C12: no non-trivial case was exercised / no directory with an unservable child was answered at all "
+                                  "(nontrivial=%d, answered=%d)" % (nontrivial, answered))
     cov = {
         "states": res["distinct"], "transitions": res["generated"], "exhaustive": True,
         "traces_validated_against_impl": tv["accepted"], "traces_rejected": len(tv["rejected"]),
@@ -236,7 +238,7 @@ def main(chk, replay=None):
         "samples": [{"id": tr["id"], "events": tr["events"]} for tr in (faulty[:2] + faulty[-1:])],
         "checker_cmd": res["cmd"] + " ; " + tv["cmd"],
         "cases_from_tlc": len(cases), "generation_states": gen_states, "trace_states": tv["states"],
-        "faults_fired": fired, "rejection_classes": classes, "omitted_children_fetched": fetches, "listdir_substitute_calls": enums,
+        "faults_fired": fired, "rejection_classes": classes, "listings_answered_with_unservable_child": answered, "omitted_children_fetched": fetches, "listdir_substitute_calls": enums,
         "witness_pinned_model_violates": wit["inv_violations"], "selftest": st,
         "model_coverage_zero": sorted(k for k, v in res.get("coverage", {}).items() if v[0] == 0)[:20],
         "bindings": ["B1 ignore pattern + handler list from conf", "B2 every TLC initial state built and listed", "B3 TraceC12"],
